@@ -15,7 +15,7 @@ from pathlib import Path
 from harness.common import Run
 from harness.tlc import make_cfg, run_tlc
 
-SUB = {48, 49, 80, 84, 72, 77, 83, 68, 45, 46, 120, 32}
+SUB = {48, 49, 80, 84, 72, 77, 83, 68, 45, 46, 120, 32, 43}
 NAIVE = 9999
 KNOWN_CSS = {"red": (255, 0, 0), "lime": (0, 255, 0), "blue": (0, 0, 255), "white": (255, 255, 255), "black": (0, 0, 0), "yellow": (255, 255, 0),
              "violet": (238, 130, 238), "orange": (255, 165, 0), "gray": (128, 128, 128), "navy": (0, 0, 128), "teal": (0, 128, 128), "silver": (192, 192, 192)}
@@ -131,6 +131,14 @@ def replay_tables(run, recs):
         run.count()
         if name not in CSS3_COLORMAP or hex2rgb(rgb2hex(name)) != rgb:
             run.violation("color|css-name", {"name": name, "want": rgb})
+    # the whole table against an independent copy of the CSS3 / SVG keyword list
+    from harness.css_colors import CSS3, LEGACY
+
+    for name in sorted(set(CSS3) | set(CSS3_COLORMAP)):
+        want = CSS3.get(name)
+        got = CSS3_COLORMAP.get(name)
+        if want is None or got is None or (tuple(got) != want and tuple(got) != LEGACY.get(name)):
+            run.violation("color|css-table", {"name": name, "want": want, "got": got})
     for name, rgb in CSS3_COLORMAP.items():
         run.count()
         h = rgb2hex(name)
